@@ -74,6 +74,10 @@ func sanitizeSelectionSet(ctx *PlanningContext, selectionSet ast.SelectionSet, i
 				var addedFields []string
 				childSelectionSet, addedFields = addScrubFieldsToSelectionSet(ctx, childSelectionSet, s.TypeCondition)
 				for _, f := range addedFields {
+					// a helper the client selected itself next to the fragment stays in the answer
+					if isSelectedUnderOwnName(selectionSet, f) {
+						continue
+					}
 					scrubFields.Set(insertionPoint, s.TypeCondition, f)
 				}
 			}
@@ -116,6 +120,16 @@ func pushDirectivesDown(selectionSet ast.SelectionSet, directives ast.DirectiveL
 		}
 		*own = merged
 	}
+}
+
+// isSelectedUnderOwnName tells whether the selection set has the field itself, under its own name
+func isSelectedUnderOwnName(selectionSet ast.SelectionSet, fieldname string) bool {
+	for _, sel := range selectionSet {
+		if f, ok := sel.(*ast.Field); ok && f.Name == fieldname && f.Alias == fieldname {
+			return true
+		}
+	}
+	return false
 }
 
 func sanitizeUnionInlineFragment(ctx *PlanningContext, selectionSet ast.SelectionSet, selection *ast.InlineFragment) ast.SelectionSet {
